@@ -59,6 +59,8 @@ def run(ctx):
             n += 1
             mirror(ctx, f, b, sw, arms[v], v, buf)
             tags(ctx, f, b, sw, arms[v], v, buf)
+            new_tag(ctx, f, b, sw, arms[v], v, buf)
+            locate_by_tag(ctx, f, b, sw, arms[v], v, buf)
     ctx.floor("R11.2", n, 11)
     r11_3(ctx, f, b, buf)
     # poll function: end-of-stream and typestate
@@ -342,3 +344,83 @@ def r11_3(ctx, f, b, buf):
         else:
             ctx.undecided("R11.3", f, "insert-position-from-comparison", where, "slice not closed: %s" % fmt(e, 4))
     ctx.floor("R11.3", n, 5)
+
+
+def new_tag(ctx, f, b, sw, target, v, buf):
+    """R11.4b: the source-index tag stored with a newly inserted element."""
+    if v not in ("PushFront", "PushBack", "Insert", "Set"):
+        return
+    region = arm_region(b, sw, target)
+    ev = arm_events(b, region, buf)
+    n = 0
+    for blk, (kind, m, t) in sorted(ev.items()):
+        if kind != "op" or m not in ("push_front", "push_back", "insert", "set"):
+            continue
+        val = b.expr_of_op(t["args"][-1])
+        x = strip(val, through_calls=False)
+        if not (x[0] == "agg" and x[1] == "tuple" and len(x[5]) == 2):
+            ctx.undecided("R11.4b", f, "new-tag:%s" % v, b.line_at((blk, 10 ** 6)), "stored element is not a (tag, value) tuple literal: %s" % fmt(val, 3))
+            continue
+        tag = x[5][0]
+        tg = strip(tag, through_calls=False)
+        n += 1
+        if v == "PushFront":
+            ok = tg[0] == "const" and tg[3] == 0
+            want = "0"
+        elif v == "PushBack":
+            ok = tg[0] == "call" and ecall_matches(tg, r"::len$") and strip(tg[3][0])[0] == "param" and strip(tg[3][0])[1] == buf
+            # the length must be read before the buffer is mutated in this arm
+            if ok:
+                ok = all(b.loc_dominates(tg[4], (ob, 10 ** 6)) and tg[4][0] != ob for ob, (k2, m2, t2) in ev.items() if k2 == "op")
+            want = "the buffer length before the push"
+        else:
+            ok = tg[0] == "field" and tg[2] == "index" and tg[1][0] == "downcast" and tg[1][2] == v
+            want = "the incoming diff's index"
+        from ..facts import has_arith
+        ok = ok and not has_arith(tag)
+        ctx.verdict(ok, "R11.4b", f, "new-tag:%s" % v, b.line_at((blk, 10 ** 6)), "arm %s stores the new element with tag %s" % (v, want),
+                    "sort translator, arm %s: the new element is stored with source-index tag `%s`, which must be %s: later index-addressed diffs (Set/Remove/PopBack) would pick the wrong element" % (v, fmt(tag, 4), want))
+
+
+def locate_by_tag(ctx, f, b, sw, target, v, buf):
+    """R11.7: the element a Pop*/Remove/Set concerns is located by equality of its tag with the right source index."""
+    if v not in ("PopFront", "PopBack", "Remove", "Set"):
+        return
+    F = ctx.facts
+    region = arm_region(b, sw, target)
+    eqs = []
+    def scan(body, blocks, owner):
+        for loc, s_ in body.iter_stmts(blocks):
+            if s_["k"] == "assign" and s_["rv"]["k"] == "bin" and s_["rv"]["op"] == "Eq":
+                l, r = body.expr_of_op(s_["rv"]["l"]), body.expr_of_op(s_["rv"]["r"])
+                eqs.append((owner, loc, l, r))
+    scan(b, sorted(region), f)
+    for loc, s_ in b.iter_stmts(sorted(region)):
+        if s_["k"] == "assign" and s_["rv"]["k"] == "agg" and s_["rv"]["of"] == "closure":
+            c = F.fns.get(f.crate + "::" + s_["rv"]["def"])
+            if c is not None and c.built:
+                scan(c.built, None, c)
+    # equalities that compare a tag (field .0 of an item / deref of the tag reference) with something
+    def is_tag(e):
+        return contains(e, lambda y: y[0] == "field" and y[2] == "0" and y[1][0] not in ("downcast", "bin", "call"))
+    cands = [(o, loc, l, r) for o, loc, l, r in eqs if (is_tag(l) != is_tag(r))]
+    if not cands:
+        ctx.undecided("R11.7", f, "locate:%s" % v, b.line_at((target, 0)), "no tag equality found in arm %s" % v)
+        return
+    for o, loc, l, r in cands:
+        other = r if is_tag(l) else l
+        x = strip(other, through_calls=False)
+        if v == "PopFront":
+            ok = x[0] == "const" and x[3] == 0
+            want = "0"
+        elif v == "PopBack":
+            # last_index = len - 1 (captured variable in a closure, or the local itself)
+            ok = (x[0] == "field" and "last" in x[2]) or contains(other, lambda y: y[0] == "call" and ecall_matches(y, r"::len$"))
+            want = "len - 1"
+        else:
+            ok = (x[0] == "field" and ("index" in x[2])) or (x[0] == "field" and x[1][0] == "downcast")
+            want = "the incoming diff's index"
+        if x[0] in ("const",) and v != "PopFront":
+            ok = False
+        ctx.verdict(True if ok else (False if x[0] == "const" else None), "R11.7", f, "locate:%s" % v, o.built.line_at(loc), "arm %s locates its element by tag == %s" % (v, want),
+                    "sort translator, arm %s: the element is located by tag == `%s` instead of %s" % (v, fmt(other, 3), want))
